@@ -1,9 +1,15 @@
 import ProfiVerif.Driver.Codec
 import ProfiVerif.Driver.PhyRx
 import ProfiVerif.Driver.Gap
+import ProfiVerif.Driver.Gsd
+import ProfiVerif.Driver.Las
 import ProfiVerif.Driver.Diag
 import ProfiVerif.Driver.Apps
 import ProfiVerif.Driver.Prm
+import ProfiVerif.Driver.Station
+import ProfiVerif.Driver.StationOracle
+import ProfiVerif.Driver.Net
+import ProfiVerif.Driver.NetOracle
 import ProfiVerif.Driver.DpOracle
 open PV PV.Driver
 
@@ -18,6 +24,20 @@ def main (args : List String) : IO UInt32 := do
   match args with
   | ["model", "codec"] => engineLoop (fun (_ : Unit) l => ((), (stepCodec (splitWords l)).getD "bad-op")) () inp out; return 0
   | ["model", "decoder"] => engineLoop (fun (_ : Unit) l => ((), (stepDecoder (splitWords l)).getD "bad-op")) () inp out; return 0
+  | ["oracle", "C01st", o, i] => oracleLoop (oracleStation "C01") {} o i
+  | ["oracle", "C05st", o, i] => oracleLoop (oracleStation "C05") {} o i
+  | ["oracle", "C06st", o, i] => oracleLoop (oracleStation "C06") {} o i
+  | ["oracle", "C11st", o, i] => oracleLoop (oracleStation "C11") {} o i
+  | ["oracle", "C12st", o, i] => oracleLoop (oracleStation "C12") {} o i
+  | ["oracle", "C13st", o, i] => oracleLoop (oracleStation "C13") {} o i
+  | ["oracle", "C15st", o, i] => oracleLoop (oracleStation "C15") {} o i
+  | ["oracle", "C01net", o, i] => oracleLoop (oracleNet "C01") {} o i
+  | ["oracle", "C02net", o, i] => oracleLoop (oracleNet "C02") {} o i
+  | ["oracle", "C05net", o, i] => oracleLoop (oracleNet "C05") {} o i
+  | ["oracle", "C06net", o, i] => oracleLoop (oracleNet "C06") {} o i
+  | ["oracle", "C13net", o, i] => oracleLoop (oracleNet "C13") {} o i
+  | ["model", "net"] => engineLoop stepNet none inp out; return 0
+  | ["model", "station"] => engineLoop stepStation none inp out; return 0
   | ["model", "prm"] => engineLoop stepPrm none inp out; return 0
   | ["oracle", "C20", o, i] => oracleLoop oracleC20 (none, 0) o i
   | ["model", "phyrx"] => engineLoop stepPhyRx [] inp out; return 0
@@ -30,6 +50,10 @@ def main (args : List String) : IO UInt32 := do
   | ["oracle", "C14", o, i] => oracleLoop oracleC14 ({}, {}) o i
   | ["model", "diag"] => engineLoop (fun (st : Option PV.Diag.PState) l => stepDiag st (splitWords l)) none inp out; return 0
   | ["oracle", "C17", o, i] => oracleLoop oracleC17 { cap := 0, prev := "last=-" } o i
+  | ["oracle", "C02las", o, i] => oracleLoop oracleLas {} o i
+  | ["model", "las"] => engineLoop stepLas none inp out; return 0
+  | ["model", "gsd"] => engineLoop (fun (_ : Unit) l => ((), (stepGsd (splitWords l)).getD "bad-op")) () inp out; return 0
+  | ["oracle", "C19", o, i] => oracleLoop (fun (_ : Unit) op obs => ((), oracleC19 op obs)) () o i
   | ["model", "gap"] => engineLoop (fun (_ : Unit) l => ((), stepGap l)) () inp out; return 0
   | ["oracle", "C12gap", o, i] => oracleLoop (fun (_ : Unit) op obs => ((), oracleGap op obs)) () o i
   | ["oracle", "C16", o, i] => oracleLoop oracleC16 {} o i
